@@ -88,7 +88,7 @@ def fit_object16(case):
     obj = MulticlassCarver(sort_by=p["sort_by"], min_freq=p["min_freq"], quantitative_features=quant,
                            qualitative_features=cat, ordinal_features=ordi, values_orders=orders,
                            max_n_mod=p["max_n_mod"], output_dtype=p["output_dtype"], dropna=p["dropna"],
-                           copy=True, verbose=False, pretty_print=False)
+                           copy=True, verbose=False, pretty_print=False, **dict(case.get("kwargs") or {}))
     obj.fit(c04.build_frame(case), pd.Series(case["y"]))
     if case.get("json"):
         js = json.loads(json.dumps(obj.to_json()))
@@ -120,7 +120,8 @@ def base_modalities(case):
         orders = {f["name"]: GroupedList(decs(f["order"])) for f in case["features"] if f["kind"] == "ord"}
         try:
             disc = Discretizer(quantitative_features=quant, qualitative_features=cat, ordinal_features=ordi,
-                               values_orders=orders, min_freq=p["min_freq"], copy=True, verbose=False)
+                               values_orders=orders, min_freq=p["min_freq"], copy=True, verbose=False,
+                               **dict(case.get("kwargs") or {}))
             disc.fit(c04.build_frame(case), y)
         except Exception as e:  # noqa: BLE001
             for f in case["features"]:
